@@ -130,6 +130,7 @@ type TypeDecl struct {
 }
 
 func (t *TypeDecl) declNode() *Node { return &t.Node }
+func (t *TypeDecl) Exported() bool  { return t.Name != "" && t.Name[0] >= 'A' && t.Name[0] <= 'Z' }
 func (t *TypeDecl) HasCtor() bool   { return len(t.Constructors) > 0 }
 func (t *TypeDecl) IsCtor(fn string) bool {
 	for _, c := range t.Constructors {
